@@ -9,11 +9,11 @@ HOOKS = {
 }
 
 ENGINES_DOC = [
-    {"name": "spec", "path": "spec/", "serves_properties": ["C01", "C02", "C03", "C04", "C05", "C06", "C10", "C11", "C12", "C13", "C14", "C15", "C16"],
+    {"name": "spec", "path": "spec/", "serves_properties": ["C01", "C02", "C03", "C04", "C07", "C08", "C17", "C05", "C06", "C10", "C11", "C12", "C13", "C14", "C15", "C16"],
      "kind_free_text": "TLA+ modules (single source of truth) checked with TLC"},
-    {"name": "harness", "path": "harness/", "serves_properties": ["C01", "C02", "C03", "C04", "C05", "C06", "C10", "C11", "C12", "C13", "C14", "C15", "C16"],
+    {"name": "harness", "path": "harness/", "serves_properties": ["C01", "C02", "C03", "C04", "C07", "C08", "C17", "C05", "C06", "C10", "C11", "C12", "C13", "C14", "C15", "C16"],
      "kind_free_text": "Rust conformance harness: replays TLC-generated behaviours on the real code, records traces/rows for TLC to judge"},
-    {"name": "orchestrator", "path": "bin/check", "serves_properties": ["C01", "C02", "C03", "C04", "C05", "C06", "C10", "C11", "C12", "C13", "C14", "C15", "C16"],
+    {"name": "orchestrator", "path": "bin/check", "serves_properties": ["C01", "C02", "C03", "C04", "C07", "C08", "C17", "C05", "C06", "C10", "C11", "C12", "C13", "C14", "C15", "C16"],
      "kind_free_text": "python3 driver: build, TLC, replay/validation, evidence, exit code"},
 ]
 
@@ -128,8 +128,32 @@ CHECKS.update({
     },
 })
 
+_NUM_TECH = "TLA+ specification of the denoted values on exact digit-sequence arithmetic (Decimal/Numeric); TLC judges rows recorded from the real conversions"
+CHECKS.update({
+    "C07": {
+        "engine": "spec",
+        "text": "Numeric.tla states which results an integer conversion may produce: for a decimal literal v (parsed exactly from its bytes by Decimal.tla) any in-range integer within 1/2 + tol(v) of v, and -222 iff some such integer lies outside the type; exact value for non-decimal literals; type bounds for MIN/MAX; a command error for everything else. ~22k boundary-directed rows (all ten types: bounds, zero, halves, powers of two, spellings NR1/NR2/NR3, non-decimal, keywords, other element types) and random literals are recorded from <T as TryFrom<Token>> and judged by TLC.",
+        "design_ref": "DESIGN.md 3 C07",
+        "note": "Tolerance as the property states (double resp. single resolution, either neighbour at a tie); all arithmetic on digit sequences because TLC integers are 32-bit.",
+        "technique": _NUM_TECH,
+    },
+    "C08": {
+        "engine": "spec",
+        "text": "Float conversions: the literal (exact decimal) must lie in the rounding interval of the returned float, whose end points (exact decimal midpoints to the neighbouring floats) the harness derives from the result's bit pattern; ties only with an even mantissa; infinities beyond the overflow threshold, zero below half the smallest subnormal, sign preserved. Directed rows sit exactly on, just above and just below midpoints of sampled f32/f64 values (double-rounding detectors), plus extreme exponents and random literals; keywords, ~55 boolean spellings and the accept matrix of the byte-ish targets are judged the same way.",
+        "design_ref": "DESIGN.md 3 C08",
+        "note": "Trusted base for float rows: IEEE-754 bit layout and a 40-line bignum in the harness. bool/float from a non-decimal numeric is an unspecified cell.",
+        "technique": _NUM_TECH,
+    },
+    "C17": {
+        "engine": "spec",
+        "text": "Numeric.tla: a character datum denotes MAX/MIN/DEF/UP/DOWN exactly in short or long form (Mnemonic!Compare), anything else converts as the underlying type; resolving yields max / min / default-or--224 / -224 / the value iff min <= v <= max else -222, so a resolved value never leaves [min, max]. Rows for u8, i16, i64, f32, f64 and Time over ~65 elements x (min, max, default) configurations x four builder call orders are judged by TLC.",
+        "design_ref": "DESIGN.md 3 C17",
+        "note": "Values are compared as decimals printed by Rust's shortest round-trip formatting (order preserving); correctness of the underlying conversion is C07/C08's job.",
+        "technique": _NUM_TECH,
+    },
+})
+
 NOT_APPLICABLE = [
     {"property_id": p, "reason": "check under construction in this round (see DESIGN.md 6, construction order); not yet claimed"}
-    for p in ["C07", "C08", "C09",
-              "C17", "C18", "C19", "C20"]
+    for p in ["C09", "C18", "C19", "C20"]
 ]
